@@ -73,16 +73,164 @@ Proof.
 Qed.
 
 (* ---------------------------------------------------------------- well-formedness *)
+Definition dirl (d : bool) (l : list rnode) : Prop := forallb (dirb d) l = true.
+Lemma dirl_cons d k l : dirl d (k :: l) <-> dirb d k = true /\ dirl d l.
+Proof. unfold dirl. cbn [forallb]. apply andb_true_iff. Qed.
+Lemma dirl_app d a b : dirl d (a ++ b) <-> dirl d a /\ dirl d b.
+Proof. unfold dirl. rewrite forallb_app. apply andb_true_iff. Qed.
+Lemma dirl_nil d : dirl d [].
+Proof. reflexivity. Qed.
+Lemma dirl_In d l x : dirl d l -> In x l -> dirb d x = true.
+Proof. unfold dirl. rewrite forallb_forall. auto. Qed.
+Lemma dirl_rev d l : dirl d l -> dirl d (rev l).
+Proof.
+  unfold dirl. rewrite !forallb_forall. intros H x Hx. apply H. apply in_rev. exact Hx.
+Qed.
+
+Ltac knum := unfold kcls, consuming, is_leaf0, is_charloop, is_char1, is_anchor_t, is_unary1, is_look, is_loop_t in *; tnum.
+
+(* decide a goal about the kind of a type that hypotheses pin down to finitely many values *)
+Ltac kfin := knum; repeat match goal with |- context [if ?b then _ else _] => destruct b eqn:? end; try reflexivity; try congruence; try lia.
+
+Lemma kcls_charloop t : is_charloop t = true -> kcls t = KCharLoop.
+Proof. intros H. unfold kcls. rewrite H. reflexivity. Qed.
+
+Lemma charloop_consuming t : is_charloop t = true -> consuming t = true /\ is_look t = false /\ (t =? T_ExprCond) = false.
+Proof. intros H. knum. lia. Qed.
+
+Lemma char1_facts t : is_char1 t = true ->
+  kcls t = KLeaf /\ consuming t = true /\ is_look t = false /\ (t =? T_ExprCond) = false /\ (t =? T_Ref) = false.
+Proof. intros H. assert (t = 9 \/ t = 10 \/ t = 11) by (knum; lia). destruct H0 as [-> | [-> | ->]]; repeat split; reflexivity. Qed.
+
+Lemma useRTL_clear_I o : useRTL (clear_I o) = useRTL o.
+Proof.
+  unfold useRTL, pl_bit, clear_I. rewrite land_ldiff_disjoint; [reflexivity | reflexivity].
+Qed.
+
+Lemma dirb_retype d t o ch m n str st kids t' o' ch' m' n' str' st' :
+  is_look t' = is_look t -> consuming t' = consuming t -> (t' =? T_ExprCond) = (t =? T_ExprCond) ->
+  useRTL o' = useRTL o ->
+  dirb d (RN t' o' ch' m' n' str' st' kids) = dirb d (RN t o ch m n str st kids).
+Proof. intros H1 H2 H3 H4. rewrite !dirb_eq. unfold dkids. rewrite H1, H2, H3, H4. reflexivity. Qed.
+
+Lemma dirb_leaf d t o ch m n str st :
+  dirb d (RN t o ch m n str st []) = if is_look t then true else if consuming t then Bool.eqb (useRTL o) d else true.
+Proof.
+  rewrite dirb_eq. unfold dkids. destruct (is_look t); [reflexivity|].
+  destruct (t =? T_ExprCond); cbn [tl forallb]; rewrite andb_true_r; reflexivity.
+Qed.
+
+Lemma dirb_nonconsuming_leaf d t o ch m n str st : consuming t = false -> dirb d (RN t o ch m n str st []) = true.
+Proof. intros H. rewrite dirb_leaf, H. destruct (is_look t); reflexivity. Qed.
+
+(* what a wf node of a leaf / single-character-loop kind looks like *)
+Lemma dirb_list_node d t o ch m n str st kids :
+  t = T_Alternate \/ t = T_Concatenate -> dirb d (RN t o ch m n str st kids) = forallb (dirb d) kids.
+Proof. intros [-> | ->]; rewrite dirb_eq; reflexivity. Qed.
+
+Lemma dirb_unary d t o ch m n str st k :
+  kcls t = KUnary -> is_look t = false -> dirb d (RN t o ch m n str st [k]) = dirb d k.
+Proof.
+  intros K L. rewrite dirb_eq, L.
+  assert (C : consuming t = false /\ (t =? T_ExprCond) = false).
+  { revert K L. knum. repeat match goal with |- context [if ?b then _ else _] => destruct b eqn:? end; intros; try discriminate; lia. }
+  destruct C as [C1 C2]. unfold dkids. rewrite C1, C2. cbn. rewrite andb_true_r. reflexivity.
+Qed.
+
+Ltac ifs := repeat match goal with
+  | |- context [if ?b then _ else _] => destruct b eqn:?
+  | H : context [if ?b then _ else _] |- _ => destruct b eqn:?
+  end.
+Ltac blia := unfold can_combine, add_max_length, bounds_ok, pp_inf in *; ifs; try discriminate; lia.
+
+Lemma bounds_combine cm cn nm nn : bounds_ok cm cn = true -> bounds_ok nm nn = true -> can_combine cm cn nm nn = true ->
+  bounds_ok (cm + nm) (if cn =? pp_inf then cn else if nn =? pp_inf then pp_inf else cn + nn) = true.
+Proof. intros. blia. Qed.
+
+Lemma bounds_combine1 cm cn : bounds_ok cm cn = true -> can_combine cm cn 1 1 = true ->
+  bounds_ok (cm + 1) (if cn =? pp_inf then cn else cn + 1) = true.
+Proof. intros. blia. Qed.
+
+Lemma bounds_combine_k cm cn k : bounds_ok cm cn = true -> 0 <= k -> can_combine cm cn k k = true ->
+  bounds_ok (cm + k) (if cn =? pp_inf then cn else cn + k) = true.
+Proof. intros. blia. Qed.
+
+Lemma bounds_combine1' nm nn : bounds_ok nm nn = true -> can_combine 1 1 nm nn = true ->
+  bounds_ok (nm + 1) (if nn =? pp_inf then pp_inf else nn + 1) = true.
+Proof. intros. blia. Qed.
+
+Lemma count_prefix_range ch s : 0 <= count_prefix ch s <= zlen s.
+Proof.
+  unfold zlen. induction s as [|c s IH]; cbn [count_prefix length]; [lia|].
+  destruct (c =? ch); lia.
+Qed.
+
+Definition loopish (t : Z) : Prop := kcls t = KLoop \/ kcls t = KCharLoop.
+
+Definition mulsat (c k : Z) : Z := if 0 <? c then (if (pp_inf - 1) / c <? k then pp_inf else c * k) else c.
+
+Lemma mulsat_bounds cm cn mn mx : bounds_ok cm cn = true -> bounds_ok mn mx = true ->
+  bounds_ok (mulsat cm mn) (mulsat cn mx) = true.
+Proof.
+  unfold bounds_ok, mulsat. intros H1 H2.
+  assert (A : 0 <= cm <= cn /\ cn <= pp_inf /\ 0 <= mn <= mx /\ mx <= pp_inf) by lia. clear H1 H2.
+  destruct A as [A1 [A2 [A3 A4]]]. unfold pp_inf in *.
+  assert (Q : forall c, 0 < c -> c * ((2147483647 - 1) / c) <= 2147483647 - 1 /\ 2147483647 - 1 < c * ((2147483647 - 1) / c + 1)).
+  { intros c Hc. split; [apply Z.mul_div_le; lia|]. pose proof (Z.mul_succ_div_gt (2147483647 - 1) c Hc). lia. }
+  destruct (0 <? cm) eqn:E1; destruct (0 <? cn) eqn:E2; try lia.
+  - destruct (Q cm ltac:(lia)) as [Q1 Q2]. destruct (Q cn ltac:(lia)) as [Q3 Q4].
+    set (q1 := (2147483647 - 1) / cm) in *. set (q2 := (2147483647 - 1) / cn) in *.
+    assert (q2 <= q1) by (subst q1 q2; apply Z.div_le_compat_l; lia).
+    assert (0 <= q2) by (subst q2; apply Z.div_pos; lia).
+    destruct (q1 <? mn) eqn:E3; destruct (q2 <? mx) eqn:E4; try lia.
+    + assert (cm * mn <= cm * q1) by (apply Z.mul_le_mono_nonneg_l; lia). lia.
+    + assert (cm * mn <= cm * q1) by (apply Z.mul_le_mono_nonneg_l; lia).
+      assert (cn * mx <= cn * q2) by (apply Z.mul_le_mono_nonneg_l; lia).
+      assert (cm * mn <= cn * mx) by (apply Z.mul_le_mono_nonneg; lia).
+      assert (0 <= cm * mn) by (apply Z.mul_nonneg_nonneg; lia). lia.
+  - destruct (Q cn ltac:(lia)) as [Q3 Q4]. set (q2 := (2147483647 - 1) / cn) in *.
+    destruct (q2 <? mx) eqn:E4; [lia|].
+    assert (cn * mx <= cn * q2) by (apply Z.mul_le_mono_nonneg_l; lia).
+    assert (0 <= cn * mx) by (apply Z.mul_nonneg_nonneg; lia). lia.
+Qed.
+
+Lemma loop_kid_dir d t o ch m n str st k : kcls t = KLoop -> dirb d (RN t o ch m n str st [k]) = dirb d k.
+Proof.
+  intros K. assert (T : t = T_Loop \/ t = T_Lazyloop).
+  { revert K. knum. repeat match goal with |- context [if ?b then _ else _] => destruct b eqn:? end; intros; try discriminate; lia. }
+  destruct T as [-> | ->]; rewrite dirb_eq; cbn; rewrite andb_true_r; reflexivity.
+Qed.
+
+Lemma dirb_bref d o ch m n str st kids : dirb d (RN T_BackRefCond o ch m n str st kids) = forallb (dirb d) kids.
+Proof. rewrite dirb_eq. reflexivity. Qed.
+
+Lemma dirb_econd d o ch m n str st kids : dirb d (RN T_ExprCond o ch m n str st kids) = forallb (dirb d) (tl kids).
+Proof. rewrite dirb_eq. reflexivity. Qed.
+
+Lemma eqb_refl_b b : Bool.eqb b b = true.
+Proof. destruct b; reflexivity. Qed.
+
+
+(* ================================================================ *)
+Section Caps.
+Variable caps : list Z.
+
+(* the group numbers of a Capture (M, and N for a balancing group), a Ref and a BackRefCond (M) are keys of the
+   capture table: what the writer's mapCapnum assumes (Extract/Drv10.v nums_okb) *)
+Definition gq (t m n : Z) : bool :=
+  if t =? T_Capture then (if n =? -1 then zmem m caps else zmem n caps && ((m =? -1) || zmem m caps))
+  else zmem m caps.
+
 Definition knd (strict : bool) (x : rnode) : bool :=
   let 'RN t _ _ m n _ _ kids := x in
   match kcls t with
   | KCharLoop => nokids kids && bounds_ok m n
-  | KLeaf => nokids kids
+  | KLeaf => nokids kids && (negb (t =? T_Ref) || gq t m n)
   | KConcat => true
   | KAlt => negb strict || negb (nokids kids)
   | KLoop => match kids with [k] => bounds_ok m n && (dirb false k || dirb true k) | _ => false end
-  | KUnary => match kids with [_] => true | _ => false end
-  | KBref => match kids with [_] | [_; _] => true | _ => false end
+  | KUnary => match kids with [_] => negb (t =? T_Capture) || gq t m n | _ => false end
+  | KBref => match kids with [_] | [_; _] => gq t m n | _ => false end
   | KEcond => match kids with [_] | [_; _] | [_; _; _] => true | _ => false end
   | KBad => false
   end.
@@ -139,69 +287,18 @@ Proof.
   unfold wfl. rewrite !forallb_forall. intros H x Hx. apply H. apply in_rev. exact Hx.
 Qed.
 
-Definition dirl (d : bool) (l : list rnode) : Prop := forallb (dirb d) l = true.
-Lemma dirl_cons d k l : dirl d (k :: l) <-> dirb d k = true /\ dirl d l.
-Proof. unfold dirl. cbn [forallb]. apply andb_true_iff. Qed.
-Lemma dirl_app d a b : dirl d (a ++ b) <-> dirl d a /\ dirl d b.
-Proof. unfold dirl. rewrite forallb_app. apply andb_true_iff. Qed.
-Lemma dirl_nil d : dirl d [].
-Proof. reflexivity. Qed.
-Lemma dirl_In d l x : dirl d l -> In x l -> dirb d x = true.
-Proof. unfold dirl. rewrite forallb_forall. auto. Qed.
-Lemma dirl_rev d l : dirl d l -> dirl d (rev l).
-Proof.
-  unfold dirl. rewrite !forallb_forall. intros H x Hx. apply H. apply in_rev. exact Hx.
-Qed.
-
 (* ---------------------------------------------------------------- numbers *)
-Ltac knum := unfold kcls, consuming, is_leaf0, is_charloop, is_char1, is_anchor_t, is_unary1, is_look, is_loop_t in *; tnum.
-
-(* decide a goal about the kind of a type that hypotheses pin down to finitely many values *)
-Ltac kfin := knum; repeat match goal with |- context [if ?b then _ else _] => destruct b eqn:? end; try reflexivity; try congruence; try lia.
-
-Lemma kcls_charloop t : is_charloop t = true -> kcls t = KCharLoop.
-Proof. intros H. unfold kcls. rewrite H. reflexivity. Qed.
-
-Lemma charloop_consuming t : is_charloop t = true -> consuming t = true /\ is_look t = false /\ (t =? T_ExprCond) = false.
-Proof. intros H. knum. lia. Qed.
-
-Lemma char1_facts t : is_char1 t = true ->
-  kcls t = KLeaf /\ consuming t = true /\ is_look t = false /\ (t =? T_ExprCond) = false.
-Proof. intros H. assert (t = 9 \/ t = 10 \/ t = 11) by (knum; lia). destruct H0 as [-> | [-> | ->]]; repeat split; reflexivity. Qed.
-
-Lemma useRTL_clear_I o : useRTL (clear_I o) = useRTL o.
-Proof.
-  unfold useRTL, pl_bit, clear_I. rewrite land_ldiff_disjoint; [reflexivity | reflexivity].
-Qed.
-
 (* ---------------------------------------------------------------- retyping *)
 (* dirb looks at the kind through three tests and at the options through the RightToLeft bit *)
-Lemma dirb_retype d t o ch m n str st kids t' o' ch' m' n' str' st' :
-  is_look t' = is_look t -> consuming t' = consuming t -> (t' =? T_ExprCond) = (t =? T_ExprCond) ->
-  useRTL o' = useRTL o ->
-  dirb d (RN t' o' ch' m' n' str' st' kids) = dirb d (RN t o ch m n str st kids).
-Proof. intros H1 H2 H3 H4. rewrite !dirb_eq. unfold dkids. rewrite H1, H2, H3, H4. reflexivity. Qed.
-
-Lemma dirb_leaf d t o ch m n str st :
-  dirb d (RN t o ch m n str st []) = if is_look t then true else if consuming t then Bool.eqb (useRTL o) d else true.
-Proof.
-  rewrite dirb_eq. unfold dkids. destruct (is_look t); [reflexivity|].
-  destruct (t =? T_ExprCond); cbn [tl forallb]; rewrite andb_true_r; reflexivity.
-Qed.
-
-Lemma wf_leaf t o ch m n str st : kcls t = KLeaf -> wf (RN t o ch m n str st []).
-Proof. intros H. apply wf_iff. split; [unfold knd; rewrite H; reflexivity | apply wfl_nil]. Qed.
+Lemma wf_leaf t o ch m n str st : kcls t = KLeaf -> (t =? T_Ref) = false -> wf (RN t o ch m n str st []).
+Proof. intros H R. apply wf_iff. split; [unfold knd; rewrite H, R; reflexivity | apply wfl_nil]. Qed.
 
 Lemma wf_charloop t o ch m n str st : is_charloop t = true -> bounds_ok m n = true -> wf (RN t o ch m n str st []).
 Proof. intros H B. apply wf_iff. split; [unfold knd; rewrite (kcls_charloop t H), B; reflexivity | apply wfl_nil]. Qed.
 
-Lemma wf_mk_node t o : kcls t = KLeaf -> wf (mk_node t o).
+Lemma wf_mk_node t o : kcls t = KLeaf -> (t =? T_Ref) = false -> wf (mk_node t o).
 Proof. apply wf_leaf. Qed.
 
-Lemma dirb_nonconsuming_leaf d t o ch m n str st : consuming t = false -> dirb d (RN t o ch m n str st []) = true.
-Proof. intros H. rewrite dirb_leaf, H. destruct (is_look t); reflexivity. Qed.
-
-(* what a wf node of a leaf / single-character-loop kind looks like *)
 Lemma wf_nokids t o ch m n str st kids :
   wf (RN t o ch m n str st kids) -> (kcls t = KLeaf \/ kcls t = KCharLoop) -> kids = [].
 Proof.
@@ -235,7 +332,7 @@ Proof.
   unfold make_rep. cbn [n_t set_t set_mn].
   assert (L : is_charloop (t0 + (t - T_One)) = true) by (destruct Ht; subst t; knum; lia).
   split; [apply wf_charloop; assumption|].
-  intros d. destruct (char1_facts t0 C) as [_ [C1 [C2 C3]]]. destruct (charloop_consuming _ L) as [L1 [L2 L3]].
+  intros d. destruct (char1_facts t0 C) as [_ [C1 [C2 [C3 _]]]]. destruct (charloop_consuming _ L) as [L1 [L2 L3]].
   apply dirb_retype; congruence.
 Qed.
 
@@ -296,10 +393,6 @@ Proof.
 Qed.
 
 (* ---------------------------------------------------------------- replaceNodeIfUnnecessary *)
-Lemma dirb_list_node d t o ch m n str st kids :
-  t = T_Alternate \/ t = T_Concatenate -> dirb d (RN t o ch m n str st kids) = forallb (dirb d) kids.
-Proof. intros [-> | ->]; rewrite dirb_eq; reflexivity. Qed.
-
 Lemma replace_if_unnecessary_wf x :
   wfl (n_kids x) -> (n_t x = T_Alternate \/ n_t x = T_Concatenate) ->
   wf (replace_if_unnecessary x) /\ forall d, dirl d (n_kids x) -> dirb d (replace_if_unnecessary x) = true.
@@ -346,15 +439,6 @@ Proof.
     intros d. apply dirb_nonconsuming_leaf. destruct (t =? T_PosLook); reflexivity.
   - inversion E; subst. split; [apply pre_wf; [cbn [n_t]; congruence | exact P]|].
     intros d. rewrite dirb_eq, L. reflexivity.
-Qed.
-
-Lemma dirb_unary d t o ch m n str st k :
-  kcls t = KUnary -> is_look t = false -> dirb d (RN t o ch m n str st [k]) = dirb d k.
-Proof.
-  intros K L. rewrite dirb_eq, L.
-  assert (C : consuming t = false /\ (t =? T_ExprCond) = false).
-  { revert K L. knum. repeat match goal with |- context [if ?b then _ else _] => destruct b eqn:? end; intros; try discriminate; lia. }
-  destruct C as [C1 C2]. unfold dkids. rewrite C1, C2. cbn. rewrite andb_true_r. reflexivity.
 Qed.
 
 Lemma reduce_atomic_wf : forall x y, pre x -> n_t x = T_Atomic -> reduce_atomic x = Ok y ->
@@ -455,7 +539,7 @@ Proof.
   destruct prev as [pt po pch pm pn pstr pst pk]. inversion E; subst. cbn [sl_out n_t] in *.
   apply wfl_cons in Wo. destruct Wo as [Wp Wo'].
   assert (C : is_char1 pt = true) by (knum; lia).
-  destruct (char1_facts pt C) as [K1 [K2 [K3 K4]]].
+  destruct (char1_facts pt C) as [K1 [K2 [K3 [K4 K5]]]].
   assert (pk = []) by (eapply wf_nokids; [exact Wp | left; exact K1]). subst pk.
   split; [apply wfl_cons; split; [apply wf_leaf; reflexivity | exact Wo']|].
   intros d Hd _. apply dirl_cons in Hd. destruct Hd as [D1 D2]. apply dirl_cons. split; [|exact D2].
@@ -504,34 +588,6 @@ Qed.
 End TreeOk.
 
 (* ---------------------------------------------------------------- reduceConcatenation *)
-Ltac ifs := repeat match goal with
-  | |- context [if ?b then _ else _] => destruct b eqn:?
-  | H : context [if ?b then _ else _] |- _ => destruct b eqn:?
-  end.
-Ltac blia := unfold can_combine, add_max_length, bounds_ok, pp_inf in *; ifs; try discriminate; lia.
-
-Lemma bounds_combine cm cn nm nn : bounds_ok cm cn = true -> bounds_ok nm nn = true -> can_combine cm cn nm nn = true ->
-  bounds_ok (cm + nm) (if cn =? pp_inf then cn else if nn =? pp_inf then pp_inf else cn + nn) = true.
-Proof. intros. blia. Qed.
-
-Lemma bounds_combine1 cm cn : bounds_ok cm cn = true -> can_combine cm cn 1 1 = true ->
-  bounds_ok (cm + 1) (if cn =? pp_inf then cn else cn + 1) = true.
-Proof. intros. blia. Qed.
-
-Lemma bounds_combine_k cm cn k : bounds_ok cm cn = true -> 0 <= k -> can_combine cm cn k k = true ->
-  bounds_ok (cm + k) (if cn =? pp_inf then cn else cn + k) = true.
-Proof. intros. blia. Qed.
-
-Lemma bounds_combine1' nm nn : bounds_ok nm nn = true -> can_combine 1 1 nm nn = true ->
-  bounds_ok (nm + 1) (if nn =? pp_inf then pp_inf else nn + 1) = true.
-Proof. intros. blia. Qed.
-
-Lemma count_prefix_range ch s : 0 <= count_prefix ch s <= zlen s.
-Proof.
-  unfold zlen. induction s as [|c s IH]; cbn [count_prefix length]; [lia|].
-  destruct (c =? ch); lia.
-Qed.
-
 Definition cl_res_ok (cur nx : rnode) (r : cl_res) : Prop :=
   match r with
   | CL_merged c => wf c /\ forall d, dirb d cur = true -> dirb d nx = true -> dirb d c = true
@@ -589,7 +645,7 @@ Proof.
         rewrite <- H2. apply dirb_retype; reflexivity. }
   match type of E with (if ?b then _ else _) = _ => destruct b eqn:ED end.
   { assert (C : is_char1 ct = true) by (knum; lia). assert (L : is_charloop nt = true) by (knum; lia).
-    destruct (char1_facts ct C) as [K1 [K2 [K3 K4]]]. destruct (charloop_consuming nt L) as [L1 [L2 L3]].
+    destruct (char1_facts ct C) as [K1 [K2 [K3 [K4 K5]]]]. destruct (charloop_consuming nt L) as [L1 [L2 L3]].
     assert (ckids = []) by (eapply wf_nokids; [exact Wc | left; exact K1]). subst ckids.
     pose proof (wf_charloop_bounds _ _ _ _ _ _ _ _ Wn (kcls_charloop _ L)) as Bn.
     destruct (can_combine 1 1 nm nn) eqn:ECC; [|inversion E; subst; exact KEEP].
@@ -726,8 +782,6 @@ Qed.
 End TreeOk2.
 
 (* ---------------------------------------------------------------- reduceRep *)
-Definition loopish (t : Z) : Prop := kcls t = KLoop \/ kcls t = KCharLoop.
-
 Lemma pre_set_bounds t o ch m n str st kids m' n' :
   pre (RN t o ch m n str st kids) -> loopish t -> bounds_ok m' n' = true -> wf (RN t o ch m' n' str st kids).
 Proof.
@@ -743,40 +797,6 @@ Proof.
   unfold knd in H. destruct L as [L|L]; rewrite L in H.
   - destruct kids as [|k [|k2 r]]; try discriminate. apply andb_prop in H. tauto.
   - apply andb_prop in H. tauto.
-Qed.
-
-Definition mulsat (c k : Z) : Z := if 0 <? c then (if (pp_inf - 1) / c <? k then pp_inf else c * k) else c.
-
-Lemma mulsat_bounds cm cn mn mx : bounds_ok cm cn = true -> bounds_ok mn mx = true ->
-  bounds_ok (mulsat cm mn) (mulsat cn mx) = true.
-Proof.
-  unfold bounds_ok, mulsat. intros H1 H2.
-  assert (A : 0 <= cm <= cn /\ cn <= pp_inf /\ 0 <= mn <= mx /\ mx <= pp_inf) by lia. clear H1 H2.
-  destruct A as [A1 [A2 [A3 A4]]]. unfold pp_inf in *.
-  assert (Q : forall c, 0 < c -> c * ((2147483647 - 1) / c) <= 2147483647 - 1 /\ 2147483647 - 1 < c * ((2147483647 - 1) / c + 1)).
-  { intros c Hc. split; [apply Z.mul_div_le; lia|]. pose proof (Z.mul_succ_div_gt (2147483647 - 1) c Hc). lia. }
-  destruct (0 <? cm) eqn:E1; destruct (0 <? cn) eqn:E2; try lia.
-  - destruct (Q cm ltac:(lia)) as [Q1 Q2]. destruct (Q cn ltac:(lia)) as [Q3 Q4].
-    set (q1 := (2147483647 - 1) / cm) in *. set (q2 := (2147483647 - 1) / cn) in *.
-    assert (q2 <= q1) by (subst q1 q2; apply Z.div_le_compat_l; lia).
-    assert (0 <= q2) by (subst q2; apply Z.div_pos; lia).
-    destruct (q1 <? mn) eqn:E3; destruct (q2 <? mx) eqn:E4; try lia.
-    + assert (cm * mn <= cm * q1) by (apply Z.mul_le_mono_nonneg_l; lia). lia.
-    + assert (cm * mn <= cm * q1) by (apply Z.mul_le_mono_nonneg_l; lia).
-      assert (cn * mx <= cn * q2) by (apply Z.mul_le_mono_nonneg_l; lia).
-      assert (cm * mn <= cn * mx) by (apply Z.mul_le_mono_nonneg; lia).
-      assert (0 <= cm * mn) by (apply Z.mul_nonneg_nonneg; lia). lia.
-  - destruct (Q cn ltac:(lia)) as [Q3 Q4]. set (q2 := (2147483647 - 1) / cn) in *.
-    destruct (q2 <? mx) eqn:E4; [lia|].
-    assert (cn * mx <= cn * q2) by (apply Z.mul_le_mono_nonneg_l; lia).
-    assert (0 <= cn * mx) by (apply Z.mul_nonneg_nonneg; lia). lia.
-Qed.
-
-Lemma loop_kid_dir d t o ch m n str st k : kcls t = KLoop -> dirb d (RN t o ch m n str st [k]) = dirb d k.
-Proof.
-  intros K. assert (T : t = T_Loop \/ t = T_Lazyloop).
-  { revert K. knum. repeat match goal with |- context [if ?b then _ else _] => destruct b eqn:? end; intros; try discriminate; lia. }
-  destruct T as [-> | ->]; rewrite dirb_eq; cbn; rewrite andb_true_r; reflexivity.
 Qed.
 
 Lemma rep_descend_wf t mn mx : is_loop_t t = true -> bounds_ok mn mx = true -> forall u um un,
@@ -869,12 +889,6 @@ Proof.
     apply wfl_cons in W; destruct W as [W1 W2]; (split; [exact W1|]); (split; [exact W2|]); cbn; lia.
 Qed.
 
-Lemma dirb_bref d o ch m n str st kids : dirb d (RN T_BackRefCond o ch m n str st kids) = forallb (dirb d) kids.
-Proof. rewrite dirb_eq. reflexivity. Qed.
-
-Lemma dirb_econd d o ch m n str st kids : dirb d (RN T_ExprCond o ch m n str st kids) = forallb (dirb d) (tl kids).
-Proof. rewrite dirb_eq. reflexivity. Qed.
-
 Section TreeOk3.
 Variable is_word_char : Z -> bool.
 Variable to_lower : Z -> Z.
@@ -959,7 +973,7 @@ Proof.
     destruct kids as [|k [|k2 r]].
     - inversion E; subst. destruct P1 as [H _]. discriminate.
     - inversion E; subst. apply wfl_cons in W1. destruct W1 as [Wk _]. split.
-      + apply wf_iff. split; [reflexivity|]. apply wfl_cons. split; [exact Wk|]. apply wfl_cons. split; [apply wf_mk_node; reflexivity | apply wfl_nil].
+      + apply wf_iff. split; [destruct P1 as [H _]; cbn in H |- *; exact H|]. apply wfl_cons. split; [exact Wk|]. apply wfl_cons. split; [apply wf_mk_node; reflexivity | apply wfl_nil].
       + intros d Hd. rewrite dirb_bref in Hd |- *. cbn [forallb] in Hd |- *. unfold mk_node.
         rewrite dirb_nonconsuming_leaf by reflexivity. exact Hd.
     - inversion E; subst. split; [apply pre_wf; [discriminate | exact P1] | auto]. }
@@ -1026,19 +1040,16 @@ Variable cat_in : Z -> Z -> bool.
 (* a fresh single-character node under the options o: well formed and running in o's direction *)
 Definition unit_ok (o : Z) (x : rnode) : Prop := wf x /\ dirb (useRTL o) x = true.
 
-Lemma eqb_refl_b b : Bool.eqb b b = true.
-Proof. destruct b; reflexivity. Qed.
-
 Lemma unit_ok_leaf o t o' ch m n str st :
-  kcls t = KLeaf -> is_look t = false -> useRTL o' = useRTL o -> unit_ok o (RN t o' ch m n str st []).
+  kcls t = KLeaf -> (t =? T_Ref) = false -> is_look t = false -> useRTL o' = useRTL o -> unit_ok o (RN t o' ch m n str st []).
 Proof.
-  intros K L R. split; [apply wf_leaf; exact K|]. rewrite dirb_leaf, L, R. destruct (consuming t); [apply eqb_refl_b | reflexivity].
+  intros K NR L R. split; [apply wf_leaf; assumption|]. rewrite dirb_leaf, L, R. destruct (consuming t); [apply eqb_refl_b | reflexivity].
 Qed.
 
 Lemma case_conv_unit t o ch st y : is_char1 t = true ->
   case_conv simple_fold cat_in (RN t o ch 0 0 [] st []) = POk y -> unit_ok o y.
 Proof.
-  intros C E. destruct (char1_facts t C) as [K1 [K2 [K3 K4]]]. unfold case_conv in E.
+  intros C E. destruct (char1_facts t C) as [K1 [K2 [K3 [K4 K5]]]]. unfold case_conv in E.
   destruct (negb (useI o)); [inversion E; subst; apply unit_ok_leaf; auto|].
   destruct (0 <? ch).
   - destruct (negb (simple_fold ch =? ch)); [|inversion E; subst; apply unit_ok_leaf; auto].
@@ -1058,3 +1069,5 @@ Lemma mk_node_set_unit o s y : mk_node_set simple_fold cat_in T_Set o s = POk y 
 Proof. intros E. eapply (case_conv_unit T_Set); [reflexivity | exact E]. Qed.
 
 End Ctors.
+
+End Caps.
